@@ -5,5 +5,7 @@ P=$1; ID=$2; T=${3:-quick}
 git -C /repo apply "$P" || { echo "patch does not apply"; exit 2; }
 /verif/check $ID $T > /tmp/try_seed.out 2>&1; rc=$?
 git -C /repo checkout -- .
+# the reverted files must look newer than anything built from the patched ones (a build that was still running would otherwise be taken as fresh)
+git -C /repo apply --numstat "$P" | cut -f3 | while read f; do [ -f "/repo/$f" ] && touch "/repo/$f"; done
 grep -E "VIOLATION|KNOWN|^$ID |MACHINERY|VACUOUS" /tmp/try_seed.out | cut -c1-260 | head -${4:-8}
 echo "exit=$rc"
